@@ -133,6 +133,13 @@ def family(seed, count):
         for special in ("WHITESPACE", "COMMENT"):
             for mod in ("_", "", "@", "$"):
                 out.append({"a": ("", ("seq", [L("x"), L("y")])), "b": ("", ("op", "*", L("y"))), "c": ("", ("op", "?", L("z"))), special: (mod, bd)})
+    # a named rule that does not progress but can fail, reached twice in one expression (directly and through another rule)
+    for cb in (("op", "&", L("x")), ("op", "!", L("z")), ("ref", "SOI"), ("ref", "EOI"), ("op", "&", ("ref", "ANY"))):
+        for twice in (("seq", [("ref", "c"), ("ref", "c")]), ("seq", [("ref", "c"), ("ref", "b")]), ("seq", [("ref", "b"), ("ref", "c"), ("ref", "b")])):
+            for rep in ("*", "+", "{2,}"):
+                out.append({"a": ("", ("seq", [("op", rep, ("op", "", twice)), ("ref", "ANY")])), "b": ("", ("ref", "c")), "c": ("", cb)})
+            out.append({"a": ("", ("alt", [("seq", [twice, ("ref", "a")]), ("ref", "ANY")])), "b": ("", ("ref", "c")), "c": ("", cb)})
+            out.append({"a": ("", ("seq", [L("x"), L("y")])), "b": ("", ("ref", "c")), "c": ("", cb), "WHITESPACE": ("_", twice)})
     rng.shuffle(out)
     # de-duplicate by text
     seen = set(); res = []
